@@ -40,7 +40,15 @@ RULE = ('four case groups, classes chosen round-robin from the case index: "stro
         'all monitors of a fresh solution (incl. covariance against a partner object that is itself re-solved) and is compared with a freshly constructed '
         'object for the same arguments; one history in four reads only one kind of quantity at the intermediate steps; on every second re-solve the previous '
         'ElasticConstants object is handed in again (re-assigned through its Cij= / Cijkl= setters when the stiffness changes) and an unchanged cell is the same Box object.  Every probed solution of every group '
-        'is re-evaluated at the end (bit-identical results required) and the caller\'s arrays (positions, C, b, transform, m, n, indices, cell) are compared with copies.')
+        'is re-evaluated at the end (bit-identical results required) and the caller\'s arrays (positions, C, b, transform, m, n, indices, cell) are compared with copies.  '
+        '"alias" = every way of stating the reference orientation (no orientation; identity as float array / int array / list / un-normalised axes=; Miller [00s]/(0s0) with m=x, n=y in a unit cubic, '
+        'a cubic and an orthorhombic cell) and a symmetry rotation of a cubic medium, for Stroh, the isotropic solver and the wrapper, judged in full.  '
+        'AFTER solving (every fresh solution of the stroh / iso / miller / alias groups incl. the wrapper\'s and the explicit-transform reference; every step of every re-solve history incl. the partner object) '
+        'the harness changes the objects it still holds, one at a time, re-reads every attribute and re-evaluates every field after each change (bit-identical to the baseline required) and undoes the change in place: '
+        'the caller\'s ElasticConstants object (in place through the array it was built from and through the arrays its getters return; re-assigned through Cij= / Cijkl= / Sij= / cubic() / isotropic()), the Burgers array, '
+        'the transform / axes array or nested list, the m and n arrays or lists, the Miller index arrays, the Box (vects=, set(a,b,c,angles), origin= + vects=), the positions array and list after an evaluation, '
+        'the arrays and the ElasticConstants object the solution handed back (K_tensor, burgers, transform, m, n, xi, C, p/A/L/k, displacement / strain / stress arrays); in-place changes rotate over scale / overwrite / NaN, '
+        'the order of the five families of changes and the setter used rotate with the case index; all five families for fresh solutions, two per step of a history.')
 ASSUMPTIONS = [
     'Stroh inputs are kept away from sextic-root degeneracy: distinct upper-half-plane roots of the oracle\'s own sextic '
     'differ by >= 0.05 and have imaginary part >= 0.08 (resampled otherwise; the near-isotropic limit family is exempt and '
@@ -52,8 +60,10 @@ ASSUMPTIONS = [
     'arrays of points have N >= 2 rows: both solvers deliberately squeeze a (1,3) input to a single-point result',
     'oracle shares numpy/LAPACK with the code under test',
     're-solve histories: the state of an object between a refused solve() (ValueError) and the next accepted one is not judged; '
-    'a re-solved object and a fresh object for the same arguments must agree to 1e-12 relative (same arithmetic; the moduli may be stated in two ways); '
-    'the caller does not modify arrays it handed in (m, n are kept by reference inside the solution)',
+    'a re-solved object and a fresh object for the same arguments must agree to 1e-12 relative (same arithmetic; the moduli may be stated in two ways)',
+    'independence from later changes: re-binding a name is not a change of an object and is not generated; letters, tuples and numbers cannot be changed in place (counted as not applicable); '
+    'a change that shows is undone in place and the baseline must come back before the next change is made (otherwise the rest of the sequence is skipped and counted); '
+    'results are compared bit for bit, which presupposes that evaluation is deterministic (the repeat clause checks that separately)',
 ]
 CONFIG = {'quick': dict(shards=8, seeds=1, timeout=900), 'thorough': dict(shards=16, seeds=3, timeout=3600)}
 
@@ -622,6 +632,8 @@ def independence(ctx, am, idx, args, watched, orient, group, nfam=5):
         rec.count(f'class:independent:object:{obj}')
         rec.count(f'class:independent:how:{obj}:{how if hkind != "inplace" else "inplace"}')
         rec.count(f'class:independent:orientation:{orient}:{obj}')
+        if hkind == 'inplace':
+            rec.count('class:independent:in-place-change:' + how.split(':')[-1])
         dirty = False
         for w in watched:
             bad = _changed(w['base'], w)
@@ -1542,6 +1554,136 @@ def run(ctx):
     rec.floor('repeat:evaluated', 1000)
     rec.floor('clause:evaluating displacement, strain and stress does not modify the array of positions handed in', 2000)
     rec.floor('clause:solving and evaluating results does not modify the caller\'s inputs (C, burgers, transform/axes, m, n, Miller indices, box)', 560)
+    # independence of solved objects from later changes of the caller's objects (quick-tier numbers; the thorough tier has more of everything)
+    for k_, v_ in {
+            'class:independent:Isotropic:direct:identity': 23,
+            'class:independent:Isotropic:direct:miller': 76,
+            'class:independent:Isotropic:direct:rotated': 44,
+            'class:independent:Isotropic:partner:identity': 6,
+            'class:independent:Isotropic:partner:miller': 25,
+            'class:independent:Isotropic:partner:rotated': 23,
+            'class:independent:Isotropic:re-solved:identity': 14,
+            'class:independent:Isotropic:re-solved:miller': 33,
+            'class:independent:Isotropic:re-solved:rotated': 47,
+            'class:independent:Isotropic:wrapper:identity': 14,
+            'class:independent:Isotropic:wrapper:miller': 9,
+            'class:independent:Isotropic:wrapper:rotated': 52,
+            'class:independent:Stroh:direct:identity': 67,
+            'class:independent:Stroh:direct:miller': 154,
+            'class:independent:Stroh:direct:rotated': 175,
+            'class:independent:Stroh:partner:identity': 16,
+            'class:independent:Stroh:partner:miller': 39,
+            'class:independent:Stroh:partner:rotated': 54,
+            'class:independent:Stroh:re-solved:identity': 28,
+            'class:independent:Stroh:re-solved:miller': 67,
+            'class:independent:Stroh:re-solved:rotated': 95,
+            'class:independent:Stroh:wrapper:identity': 43,
+            'class:independent:Stroh:wrapper:miller': 16,
+            'class:independent:Stroh:wrapper:rotated': 88,
+            'class:independent:how:arg-C:inplace': 1053,
+            'class:independent:how:arg-C:method:cubic': 205,
+            'class:independent:how:arg-C:method:isotropic': 270,
+            'class:independent:how:arg-C:setter:Cij': 272,
+            'class:independent:how:arg-C:setter:Cijkl': 207,
+            'class:independent:how:arg-C:setter:Sij': 207,
+            'class:independent:how:arg-box:method:set(a,b,c,angles)': 67,
+            'class:independent:how:arg-box:setter:origin+vects': 67,
+            'class:independent:how:arg-box:setter:vects': 68,
+            'class:independent:how:returned-C:inplace': 641,
+            'class:independent:how:returned-C:method:cubic': 95,
+            'class:independent:how:returned-C:method:isotropic': 96,
+            'class:independent:how:returned-C:setter:Cij': 177,
+            'class:independent:how:returned-C:setter:Cijkl': 174,
+            'class:independent:how:returned-C:setter:Sij': 95,
+            'class:independent:in-place-change:nan': 3005,
+            'class:independent:in-place-change:overwrite': 2993,
+            'class:independent:in-place-change:scale': 2982,
+            'class:independent:object:arg-C': 2219,
+            'class:independent:object:arg-box': 203,
+            'class:independent:object:arg-burgers': 639,
+            'class:independent:object:arg-m': 171,
+            'class:independent:object:arg-n': 172,
+            'class:independent:object:arg-positions': 639,
+            'class:independent:object:arg-slip_hkl': 203,
+            'class:independent:object:arg-transform': 332,
+            'class:independent:object:arg-xi_uvw': 203,
+            'class:independent:object:returned-C': 1283,
+            'class:independent:object:returned-K_tensor': 641,
+            'class:independent:object:returned-burgers': 641,
+            'class:independent:object:returned-eigensolution': 429,
+            'class:independent:object:returned-fields': 639,
+            'class:independent:object:returned-m': 641,
+            'class:independent:object:returned-n': 641,
+            'class:independent:object:returned-transform': 641,
+            'class:independent:object:returned-xi': 641,
+            'class:independent:orientation:identity:arg-C': 411,
+            'class:independent:orientation:identity:arg-burgers': 119,
+            'class:independent:orientation:identity:arg-m': 28,
+            'class:independent:orientation:identity:arg-n': 27,
+            'class:independent:orientation:identity:arg-positions': 122,
+            'class:independent:orientation:identity:arg-transform': 16,
+            'class:independent:orientation:identity:returned-C': 242,
+            'class:independent:orientation:identity:returned-K_tensor': 121,
+            'class:independent:orientation:identity:returned-burgers': 121,
+            'class:independent:orientation:identity:returned-eigensolution': 81,
+            'class:independent:orientation:identity:returned-fields': 122,
+            'class:independent:orientation:identity:returned-m': 121,
+            'class:independent:orientation:identity:returned-n': 121,
+            'class:independent:orientation:identity:returned-transform': 121,
+            'class:independent:orientation:identity:returned-xi': 121,
+            'class:independent:orientation:miller:arg-C': 723,
+            'class:independent:orientation:miller:arg-box': 203,
+            'class:independent:orientation:miller:arg-burgers': 203,
+            'class:independent:orientation:miller:arg-m': 56,
+            'class:independent:orientation:miller:arg-n': 55,
+            'class:independent:orientation:miller:arg-positions': 204,
+            'class:independent:orientation:miller:arg-slip_hkl': 203,
+            'class:independent:orientation:miller:arg-xi_uvw': 203,
+            'class:independent:orientation:miller:returned-C': 410,
+            'class:independent:orientation:miller:returned-K_tensor': 205,
+            'class:independent:orientation:miller:returned-burgers': 205,
+            'class:independent:orientation:miller:returned-eigensolution': 137,
+            'class:independent:orientation:miller:returned-fields': 204,
+            'class:independent:orientation:miller:returned-m': 205,
+            'class:independent:orientation:miller:returned-n': 205,
+            'class:independent:orientation:miller:returned-transform': 205,
+            'class:independent:orientation:miller:returned-xi': 205,
+            'class:independent:orientation:rotated:arg-C': 1080,
+            'class:independent:orientation:rotated:arg-burgers': 315,
+            'class:independent:orientation:rotated:arg-m': 83,
+            'class:independent:orientation:rotated:arg-n': 85,
+            'class:independent:orientation:rotated:arg-positions': 312,
+            'class:independent:orientation:rotated:arg-transform': 315,
+            'class:independent:orientation:rotated:returned-C': 630,
+            'class:independent:orientation:rotated:returned-K_tensor': 315,
+            'class:independent:orientation:rotated:returned-burgers': 315,
+            'class:independent:orientation:rotated:returned-eigensolution': 209,
+            'class:independent:orientation:rotated:returned-fields': 312,
+            'class:independent:orientation:rotated:returned-m': 315,
+            'class:independent:orientation:rotated:returned-n': 315,
+            'class:independent:orientation:rotated:returned-transform': 315,
+            'class:independent:orientation:rotated:returned-xi': 315,
+            'independent:evaluated:Isotropic:direct': 2261,
+            'independent:evaluated:Isotropic:partner': 361,
+            'independent:evaluated:Isotropic:re-solved': 606,
+            'independent:evaluated:Isotropic:wrapper': 1005,
+            'independent:evaluated:Stroh:direct': 6732,
+            'independent:evaluated:Stroh:partner': 753,
+            'independent:evaluated:Stroh:re-solved': 1304,
+            'independent:evaluated:Stroh:wrapper': 2102,
+    }.items():
+        rec.floor(k_, v_)
+    rec.floor('independent:sequences-completed', 1008)
+    rec.floor('independent:after-re-solve', 278)
+    rec.floor('independent:original-inputs-clauses-re-evaluated', 926)
+    rec.floor('clause:' + INDEP_CLAUSE, 17322)
+    for c in P.IDENT_CLASSES:
+        rec.floor('class:alias:' + c, 6)
+        rec.floor(f'class:alias:{c}:stroh', 4)
+        rec.floor(f'class:alias:{c}:iso', 2)
+    for c, v_ in (('stroh', 27), ('iso', 9), ('wrapper-stroh', 9), ('wrapper-iso', 9)):
+        rec.floor('class:alias:variant:' + c, v_)
+    rec.floor('alias:probed', 50)
     rec.floor('reach:VolterraDislocation.find_transform', 8)
     rec.floor('reach:Stroh.solve', 25)
     rec.floor('reach:Stroh.fields', 40)
